@@ -12,16 +12,18 @@ func TestSmoke(t *testing.T) {
 		return Final{Ran: ran, KeyE: enc, PostAuth: map[bool]string{true: "sealed", false: "clear"}[enc],
 			Outcome: Outcome{Done: true, Ok: true, Auth: auth, Enc: enc, Method: ran}}
 	}
-	base := Cfg{Role: "client", Auth: "REQUIRED", Enc: "REQUIRED", Integ: "SAME", Methods: []string{"P", "C"}, PeerLvl: "OPTIONAL", Mode: "fresh"}
+	base := Cfg{Role: "client", Auth: "REQUIRED", Enc: "REQUIRED", Integ: "SAME", Methods: []string{"P", "C"}, PeerLvl: "OPTIONAL", Mode: "fresh", Est: "Honest", EstEnc: "REQUIRED", Src: "base"}
 	srv := base
 	srv.Role = "server"
+	hook := srv
+	hook.Src = "hook"
 	res := base
 	res.Mode = "resumed"
 	res.Sess = Sess{Authd: true, Keyed: true}
 	res.Est, res.EstEnc = "Honest", "REQUIRED"
 	groups := []*Group{
 		{Cfg: base, Devs: []string{}, Allowed: []Final{abort, ok("C", true, true)}},
-		{Cfg: srv, Devs: []string{}, Allowed: []Final{abort, ok("C", true, true)}},
+		{Cfg: hook, Devs: []string{}, Allowed: []Final{abort, ok("C", true, true)}},
 		{Cfg: base, Devs: []string{"AnswerAuthNo", "OmitECDH"}, Allowed: []Final{abort}},
 		{Cfg: srv, Devs: []string{"OmitECDH"}, Allowed: []Final{abort}},
 		{Cfg: res, Devs: []string{}, Allowed: []Final{abort, {Ran: "NONE", KeyE: true, PostAuth: "none", Outcome: Outcome{Done: true, Ok: true, Auth: true, Enc: true, Method: "ANY", Resumed: true}}}},
